@@ -462,10 +462,10 @@ def run(tier, seed, t0):
     for ci, cfg in enumerate(cfgs):
         fl = {st_: first_level(cfg, base_seed, st_, 400) for st_ in range(nstreams)}
         order = sorted(range(nstreams), key=lambda st_: (len(fl[st_]), st_))
-        deep = [st_ for st_ in order[:(1 if tier == "quick" else 3)] if len(fl[st_]) <= (100 if tier == "quick" else 400)]
+        deep = [st_ for st_ in order[:(1 if tier == "quick" else 3)] if len(fl[st_]) <= (100 if tier == "quick" else 220)]
         for st_ in range(nstreams):
             b = 2 if st_ in deep else 1
-            if tier == "thorough" and deep and st_ == deep[0] and len(fl[st_]) <= 70:
+            if tier == "thorough" and deep and st_ == deep[0] and len(fl[st_]) <= 50:
                 b = 3
             plan.append((cfg, st_, b, fl[st_]))
     for cfg, stream, bound, pre in plan:
